@@ -188,5 +188,5 @@ func drawQP3(t *rapid.T) qp3Case {
 }
 
 func TestQP3(t *testing.T) {
-	vk.Run(t, "qp3", vk.Opts{Quick: 500, Thorough: 15000}, drawQP3, finish(checkQP3))
+	vk.Run(t, "qp3", vk.Opts{Quick: 500, Thorough: 8000}, drawQP3, finish(checkQP3))
 }
